@@ -169,6 +169,8 @@ var extractCheck = hx.NewCheck("extraction_exact", oracleExtract)
 
 func features() sqlgen.Features {
 	f := sqlgen.AllFeatures()
+	f.Merge = hx.Allowed("c15.merge")
+	f.DDLExtras = f.Merge // MERGE with a sub-query source
 	f.NoWindowFrame = !hx.Allowed("c15.window_frame_children") // frame offsets are not traversed (C14 finding)
 	return f
 }
